@@ -4483,7 +4483,8 @@ class _OverrideBinds(Grouping[_T]):
     ):
         self.element = element
         self.translate = {
-            k.key: v.value for k, v in zip(replaces_params, bindparams)
+            k.key: v.effective_value
+            for k, v in zip(replaces_params, bindparams)
         }
 
     def _gen_cache_key(
